@@ -279,6 +279,22 @@ func substParams0(s string, subst []string, unknown string) string {
 
 // pred: CondPred with parameter tokens rewritten to the caller's argument terms.
 func (c *Checker) pred(v ssa.Value) (Pred, bool, bool) {
+	// a boolean parameter of a helper stands for the condition the caller computed for it (`h(err == nil)`)
+	if c.Parent != nil {
+		if bv, vpol := stripNot(v); bv != nil {
+			if prm, isP := bv.(*ssa.Parameter); isP && isBool(prm) {
+				for i, q := range c.Fn.Params {
+					if q == prm && i < len(c.ArgVals) {
+						if _, isConst := c.ArgVals[i].(*ssa.Const); !isConst {
+							if p, pol, ok := c.Parent.pred(c.ArgVals[i]); ok {
+								return p, pol == vpol, true
+							}
+						}
+					}
+				}
+			}
+		}
+	}
 	p, pol, ok := CondPred(c.Res, v)
 
 	if ok && len(c.Subst) > 0 {
@@ -626,7 +642,7 @@ func (c *Checker) enumTest(v ssa.Value) (call *ssa.Call, k *ssa.Const, eqPol boo
 }
 
 // enumImplies: the helper handing back K (wantEq) / something else implies one of the atoms.
-func (c *Checker) enumImplies(call *ssa.Call, k *ssa.Const, wantEq bool, atoms []Atom) bool {
+func (c *Checker) enumImplies(call *ssa.Call, k *ssa.Const, wantEq bool, atoms []Atom, also ...*ssa.Const) bool {
 	if c.Depth >= MaxHelperDepth {
 		return false
 	}
@@ -647,6 +663,16 @@ func (c *Checker) enumImplies(call *ssa.Call, k *ssa.Const, wantEq bool, atoms [
 		if rc, isC := ret.Results[0].(*ssa.Const); isC && rc.Value != nil {
 			same := constant.Compare(rc.Value, token.EQL, k.Value)
 			if same != wantEq {
+				continue
+			}
+			// constants already ruled out by the tests above this one (the cases of a switch)
+			excluded := false
+			for _, k2 := range also {
+				if !wantEq && constant.Compare(rc.Value, token.EQL, k2.Value) {
+					excluded = true
+				}
+			}
+			if excluded {
 				continue
 			}
 		}
@@ -942,10 +968,26 @@ func (c *Checker) directCut(atoms []Atom) map[cfgx.Edge]bool {
 		// a comparison of a helper's result with a constant (an enum-like classification computed by the helper):
 		// only the return sites that hand back that constant (resp. another one) can have been taken
 		if call, k, eqPol, ok := c.enumTest(iff.Cond); ok && len(atoms) > 0 {
-			if c.enumImplies(call, k, eqPol, atoms) {
+			// the constants the same result was compared with, unequal, on the way here (earlier cases of a switch)
+			var also []*ssa.Const
+			for x := b; len(x.Preds) == 1; x = x.Preds[0] {
+				d := x.Preds[0]
+				iff2 := cfgx.IfOf(d)
+				if iff2 == nil || len(d.Succs) != 2 || d.Succs[0] == d.Succs[1] {
+					break
+				}
+				call2, k2, eqPol2, ok2 := c.enumTest(iff2.Cond)
+				if !ok2 || call2 != call {
+					break
+				}
+				if (d.Succs[0] == x) != eqPol2 {
+					also = append(also, k2)
+				}
+			}
+			if c.enumImplies(call, k, eqPol, atoms, also...) {
 				cut[cfgx.Edge{From: b, To: b.Succs[0]}] = true
 			}
-			if c.enumImplies(call, k, !eqPol, atoms) {
+			if c.enumImplies(call, k, !eqPol, atoms, also...) {
 				cut[cfgx.Edge{From: b, To: b.Succs[1]}] = true
 			}
 		}
@@ -1017,6 +1059,20 @@ func (c *Checker) edgeEstablishes(from, to *ssa.BasicBlock, atoms []Atom) bool {
 	}
 	for _, a := range atoms {
 		if len(a.Req) == 0 && a.matches(p, holds) {
+			return true
+		}
+	}
+	return false
+}
+
+// ValueEstablishes: the boolean value v being `truth` establishes one of the atoms (by its own comparison).
+func (c *Checker) ValueEstablishes(v ssa.Value, truth bool, atoms []Atom) bool {
+	p, pol, ok := c.pred(v)
+	if !ok {
+		return false
+	}
+	for _, a := range atoms {
+		if len(a.Req) == 0 && a.matches(p, pol == truth) {
 			return true
 		}
 	}
